@@ -379,6 +379,9 @@ def interpolate_ground_truth_frames(
     object_list = interpolate_object_list(
         before_frame_objects, after_frame_objects, before_frame.unix_time, after_frame.unix_time, unix_time
     )
+    # interpolation is done in the map frame: express the result in the frame the loaded objects are expressed in
+    if all(obj.frame_id == FrameID.BASE_LINK for obj in before_frame.objects + after_frame.objects):
+        object_list = convert_objects_to_base_link(object_list, ego2map)
     # 3. convert object list to base_link
     # object_list = convert_objects_to_base_link(object_list, ego2map)
 
@@ -407,9 +410,9 @@ def convert_objects_to_global(object_list: List[ObjectType], ego2map: Homogeneou
         elif object.frame_id == "base_link":
             updated_position, updated_rotation = ego2map.transform(object.state.position, object.state.orientation)
             output_object = deepcopy(object)
-            output_object.state.position = updated_position
+            output_object.state.position = tuple(updated_position.tolist())
             output_object.state.orientation = updated_rotation
-            output_object.frame_id = "map"
+            output_object.frame_id = FrameID.MAP
             output_object_list.append(output_object)
         else:
             raise NotImplementedError(f"Unexpected frame_id: {object.frame_id}")
@@ -437,9 +440,9 @@ def convert_objects_to_base_link(object_list: List[ObjectType], ego2map: Homogen
                 rotation=object.state.orientation.rotation_matrix,
             )
             output_object = deepcopy(object)
-            output_object.state.position = updated_position
+            output_object.state.position = tuple(updated_position.tolist())
             output_object.state.orientation = updated_rotation
-            output_object.frame_id = "base_link"
+            output_object.frame_id = FrameID.BASE_LINK
             output_object_list.append(output_object)
         else:
             raise NotImplementedError(f"Unexpected frame_id: {object.frame_id}")
